@@ -303,6 +303,7 @@ func runC05(r *Run) {
 	journalDiscipline(r, entries)
 	oogIsFailure(r)
 	effectIsFirstWrite(r)
+	flushAfterValidation(r)
 
 	// ---------- R5 ----------
 	r.Rule("R5", "PATH.flush-skip: StateDB.Commit runs in the middle of a transaction (before every precompile dispatch), so 'nothing to write' for a dirty slot is judged against what an earlier flush of this transaction wrote (transientStorage) whenever such a value exists, and against the originally loaded value only when it does not: the comparison with originStorage is reachable only over the not-found edge of the transientStorage lookup, and each SetState is followed by recording the value in transientStorage — otherwise a slot flushed inside a frame that later reverts keeps the reverted value in the store")
@@ -504,6 +505,60 @@ func effectIsFirstWrite(r *Run) {
 		}
 	}
 	r.Floor("R7", "spend handlers that also write grants", n, 5)
+}
+
+// flushAfterValidation (C05 R8): pending EVM state is written out only for a call that will be dispatched.
+func flushAfterValidation(r *Run) {
+	P := r.P
+	r.Rule("R8", "PATH.nothing-flushed-before-validation: a stateful precompile writes the pending EVM state to the SDK context (StateDB.Commit) before it dispatches — but only then: RunSetup (method lookup, write protection of read-only frames, argument decoding) and the functions it calls never flush, and in every Run the flush is reachable only after RunSetup returned without error. A call that is rejected in set-up must leave the journal-tracked state unflushed, otherwise the writes of a frame that reverts afterwards are already in the store and the revert drops them from the dirty set (they are never rewritten)")
+	isCommit := isCallMatching(func(ci CallInfo) bool { return ci.Name == "Commit" && ci.Recv == "StateDB" })
+	if rs, ok := P.FnOK("(precompiles/common.Precompile).RunSetup"); ok {
+		bad := ""
+		for fn := range moduleReach(P, rs, 3) {
+			for _, f := range withAnon(fn) {
+				eachInstr(f, func(in ssa.Instruction) {
+					if isCommit(in) && bad == "" {
+						bad = fnID(f) + " at " + P.Pos(instrPos(in))
+					}
+				})
+			}
+		}
+		r.Check(bad == "", "R8", fnID(rs)+"#never-flushes", P.Pos(fnPos(rs)), "no StateDB.Commit in RunSetup or below it",
+			"the shared set-up flushes the pending EVM state ("+bad+") before the call is validated: a call rejected for an unknown selector, write protection or undecodable arguments has already written the frame's state out")
+	} else {
+		r.Bad("R8", "anchor/RunSetup", "", "not found")
+	}
+	n := 0
+	for _, m := range wiredPrecompiles(r) {
+		if !m.Stateful || m.Run == nil {
+			continue
+		}
+		var setup ssa.CallInstruction
+		eachCall(m.Run, func(ci CallInfo) {
+			if ci.Name == "RunSetup" {
+				setup = ci.Instr
+			}
+		})
+		nCommit := len(findCalls(m.Run, func(ci CallInfo) bool { return ci.Name == "Commit" && ci.Recv == "StateDB" }))
+		if nCommit == 0 {
+			continue // C02 R2 requires the flush; nothing to order here
+		}
+		n++
+		if setup == nil {
+			r.Bad("R8", fnID(m.Run)+"#flush-after-setup", P.Pos(fnPos(m.Run)), "Run flushes without having called RunSetup")
+			continue
+		}
+		w1 := PathQuery{Fn: m.Run, Block: func(in ssa.Instruction) bool { return in == ssa.Instruction(setup) }, Target: isCommit}.Search()
+		var w2 []ssa.Instruction
+		for _, e := range errEdges(setup) {
+			if p := (PathQuery{Fn: m.Run, StartBlock: e.From.Succs[e.Succ], Target: isCommit}).Search(); p != nil {
+				w2 = p
+			}
+		}
+		r.Check(w1 == nil && w2 == nil && errHandled(setup), "R8", fnID(m.Run)+"#flush-after-setup", P.Pos(fnPos(m.Run)), "Commit only after RunSetup succeeded",
+			"Run can flush the pending EVM state without RunSetup having accepted the call", P.witness(append(w1, w2...))...)
+	}
+	r.Floor("R8", "stateful precompile Run methods that flush", n, 3)
 }
 
 // oogIsFailure (C05 R6).
